@@ -12,7 +12,7 @@ for m in sorted(glob.glob(os.path.join(HERE, 'seeded', '*', 'meta.json'))):
     if flt and flt not in name:
         continue
     meta = json.load(open(m))
-    prop = meta['breaks_property']
+    prop = meta.get('run_check') or meta['breaks_property']
     expect_caught = bool(meta.get('caught_by'))
     t0 = time.time()
     r = subprocess.run([os.path.join(HERE, 'tools', 'try_patch_scratch.sh'), os.path.join(d, 'patch.diff'), budget, prop], capture_output=True, text=True)
